@@ -1203,6 +1203,10 @@ func wlookup(name string) *wsig {
 	if !ok || inProgress[name] {
 		return nil
 	}
+	if dupes[name] {
+		problems = append(problems, name+": declared more than once in the files that take part in the build")
+		return nil
+	}
 	wtranslate(name, fd)
 	return wsigs[name]
 }
@@ -1419,7 +1423,9 @@ func calcStep() string {
 
 // ignoredField: assignments to these fields of a *Method do not touch the rendering
 func (w *world) ignoredField(f *fn, v, field string) bool {
-	return f.env[v] == "gmeth" && (field == "Comments" || field == "IsExported")
+	// (asked before the variable is declared, too: the write analysis runs ahead of the translation)
+	t, known := f.env[v]
+	return (!known || t == "gmeth") && (field == "Comments" || field == "IsExported")
 }
 
 // ownLoop translates the loop of namedTypeToInterface over the methods the type declares: the
@@ -1571,4 +1577,257 @@ func ownLoop(file *ast.File) string {
 	}
 	problems = append(problems, "own methods loop: no loop asking NumMethods() in interface.go")
 	return "Definition gen_own_methods := UNSUPPORTED_own_loop_not_found.\n\n"
+}
+
+// ---------------------------------------------------------------------------------------------
+// The dispatch of the field loop: on what does the traversal recurse?
+//
+// dispatchFacts finds, in the function that holds the merge loop, every call of that function to
+// itself and says where its type argument comes from, followed through type switches, type
+// assertions, local definitions and helper functions: "named:<expr>" = the *types.Named that <expr>
+// asserts to (<expr> written over `field`, the element of the field loop), "other:<text>" anything
+// else (a wrapper call, a method result such as Origin(), …).  Tie_C19.tie_field_dispatch fixes the
+// list: the traversal continues with the field's own named type — T itself, or the T of *T.
+func dispatchFacts(file *ast.File) string {
+	var host *ast.FuncDecl
+	for _, d := range file.Decls {
+		fd, ok := d.(*ast.FuncDecl)
+		if !ok || fd.Body == nil {
+			continue
+		}
+		ast.Inspect(fd.Body, func(x ast.Node) bool {
+			if r, ok := x.(*ast.RangeStmt); ok && hasCall(r.Body, "delete") && host == nil {
+				host = fd
+			}
+			return true
+		})
+	}
+	if host == nil {
+		problems = append(problems, "field dispatch: the traversal function was not found")
+		return "Definition gen_field_dispatch : list string := UNSUPPORTED_traversal_not_found.\n\n"
+	}
+	funcs := map[string]*ast.FuncDecl{}
+	for _, d := range file.Decls {
+		if fd, ok := d.(*ast.FuncDecl); ok {
+			funcs[fd.Name.Name] = fd
+		}
+	}
+	for n, fd := range wdecls {
+		if _, has := funcs[n]; !has {
+			funcs[n] = fd
+		}
+	}
+	facts := map[string]bool{}
+	var prov func(fd *ast.FuncDecl, e ast.Expr, at token.Pos, depth int) []string
+	var render func(fd *ast.FuncDecl, e ast.Expr, at token.Pos, depth int) string
+	// binding of an identifier inside fd, as seen from position at
+	type binding struct {
+		kind  string // "assert" | "switchvar" | "define" | "call2" | "param"
+		expr  ast.Expr
+		types []string
+		call  *ast.CallExpr
+	}
+	lookupBinding := func(fd *ast.FuncDecl, name string, at token.Pos) *binding {
+		var best *binding
+		for _, p := range fd.Type.Params.List {
+			for _, n := range p.Names {
+				if n.Name == name {
+					best = &binding{kind: "param", expr: p.Type}
+				}
+			}
+		}
+		ast.Inspect(fd.Body, func(x ast.Node) bool {
+			switch s := x.(type) {
+			case *ast.AssignStmt:
+				if s.Pos() > at || s.Tok != token.DEFINE && s.Tok != token.ASSIGN {
+					return true
+				}
+				if len(s.Lhs) >= 1 && isIdent(s.Lhs[0], name) && len(s.Rhs) == 1 {
+					if ta, ok := s.Rhs[0].(*ast.TypeAssertExpr); ok && ta.Type == nil {
+						return true // the header of a type switch: see below
+					}
+					if ta, ok := s.Rhs[0].(*ast.TypeAssertExpr); ok && ta.Type != nil {
+						best = &binding{kind: "assert", expr: ta.X, types: []string{typeString(ta.Type)}}
+					} else if c, ok := s.Rhs[0].(*ast.CallExpr); ok && len(s.Lhs) == 2 {
+						best = &binding{kind: "call2", call: c}
+					} else {
+						best = &binding{kind: "define", expr: s.Rhs[0]}
+					}
+				}
+			case *ast.TypeSwitchStmt:
+				as, ok := s.Assign.(*ast.AssignStmt)
+				if !ok || len(as.Lhs) != 1 || !isIdent(as.Lhs[0], name) {
+					return true
+				}
+				ta := as.Rhs[0].(*ast.TypeAssertExpr)
+				for _, c := range s.Body.List {
+					cc := c.(*ast.CaseClause)
+					if cc.Pos() <= at && at <= cc.End() {
+						var ts []string
+						for _, t := range cc.List {
+							ts = append(ts, typeString(t))
+						}
+						best = &binding{kind: "switchvar", expr: ta.X, types: ts}
+					}
+				}
+			}
+			return true
+		})
+		return best
+	}
+	render = func(fd *ast.FuncDecl, e ast.Expr, at token.Pos, depth int) string {
+		if depth > 8 {
+			return "?"
+		}
+		switch x := e.(type) {
+		case *ast.ParenExpr:
+			return render(fd, x.X, at, depth)
+		case *ast.Ident:
+			b := lookupBinding(fd, x.Name, at)
+			switch {
+			case b == nil:
+				return x.Name
+			case b.kind == "param" && typeString(b.expr) == "*types.Var":
+				return "field"
+			case b.kind == "define":
+				if c, ok := b.expr.(*ast.CallExpr); ok {
+					if sel, ok := c.Fun.(*ast.SelectorExpr); ok && sel.Sel.Name == "Field" && len(c.Args) == 1 {
+						return "field" // the element of the loop over the struct's fields
+					}
+				}
+				return render(fd, b.expr, at, depth+1)
+			case b.kind == "assert" || b.kind == "switchvar":
+				// the same value, seen as one of the listed types
+				return render(fd, b.expr, at, depth+1)
+			}
+			return x.Name
+		case *ast.SelectorExpr:
+			return render(fd, x.X, at, depth) + "." + x.Sel.Name
+		case *ast.CallExpr:
+			as := []string{}
+			for _, a := range x.Args {
+				as = append(as, render(fd, a, at, depth))
+			}
+			return render(fd, x.Fun, at, depth) + "(" + strings.Join(as, ",") + ")"
+		}
+		return fmt.Sprintf("%T", e)
+	}
+	prov = func(fd *ast.FuncDecl, e ast.Expr, at token.Pos, depth int) []string {
+		if depth > 8 {
+			return []string{"other:too deep"}
+		}
+		if p, ok := e.(*ast.ParenExpr); ok {
+			return prov(fd, p.X, at, depth)
+		}
+		id, ok := e.(*ast.Ident)
+		if !ok {
+			return []string{"other:" + render(fd, e, at, depth)}
+		}
+		if id.Name == "nil" {
+			return nil
+		}
+		b := lookupBinding(fd, id.Name, at)
+		if b == nil {
+			return []string{"other:" + id.Name}
+		}
+		switch b.kind {
+		case "assert", "switchvar":
+			if len(b.types) == 1 && b.types[0] == "*types.Named" {
+				return []string{"named:" + render(fd, b.expr, at, depth+1)}
+			}
+			return []string{"other:" + id.Name + " as " + strings.Join(b.types, "|")}
+		case "define":
+			return prov(fd, b.expr, at, depth+1)
+		case "call2":
+			name := ""
+			if f, ok := b.call.Fun.(*ast.Ident); ok {
+				name = f.Name
+			}
+			h, ok := funcs[name]
+			if !ok || h.Body == nil {
+				return []string{"other:result of " + render(fd, b.call, at, depth)}
+			}
+			var out []string
+			ast.Inspect(h.Body, func(x ast.Node) bool {
+				if r, ok := x.(*ast.ReturnStmt); ok && len(r.Results) >= 1 {
+					out = append(out, prov(h, r.Results[0], r.Pos(), depth+1)...)
+				}
+				return true
+			})
+			return out
+		}
+		return []string{"other:" + id.Name}
+	}
+	ast.Inspect(host.Body, func(x ast.Node) bool {
+		c, ok := x.(*ast.CallExpr)
+		if !ok {
+			return true
+		}
+		name := ""
+		switch f := c.Fun.(type) {
+		case *ast.Ident:
+			name = f.Name
+		case *ast.SelectorExpr:
+			name = f.Sel.Name
+		}
+		if name != host.Name.Name {
+			return true
+		}
+		found := false
+		for _, a := range c.Args {
+			for _, p := range prov(host, a, c.Pos(), 0) {
+				if strings.HasPrefix(p, "named:") || (strings.HasPrefix(p, "other:") && !isHandlerOrOpts(host, a)) {
+					facts[p] = true
+					found = true
+				}
+			}
+		}
+		if !found {
+			facts["other:no type argument"] = true
+		}
+		return true
+	})
+	list := []string{}
+	for f := range facts {
+		list = append(list, f)
+	}
+	sort.Strings(list)
+	if len(list) == 0 {
+		list = []string{"other:the traversal does not recurse"}
+	}
+	for i, f := range list {
+		list[i] = coqString(f)
+	}
+	translated = append(translated, "the recursion targets of "+host.Name.Name+" as gen_field_dispatch")
+	return "(* on what " + host.Name.Name + " recurses inside its loop over the struct's fields *)\nDefinition gen_field_dispatch : list string :=\n[" +
+		strings.Join(list, "; ") + "].\n\n"
+}
+
+func typeString(e ast.Expr) string {
+	switch x := e.(type) {
+	case *ast.StarExpr:
+		return "*" + typeString(x.X)
+	case *ast.SelectorExpr:
+		return typeString(x.X) + "." + x.Sel.Name
+	case *ast.Ident:
+		return x.Name
+	}
+	return fmt.Sprintf("%T", e)
+}
+
+// isHandlerOrOpts: the arguments of the recursive call that are passed through unchanged
+func isHandlerOrOpts(fd *ast.FuncDecl, e ast.Expr) bool {
+	id, ok := e.(*ast.Ident)
+	if !ok {
+		return false
+	}
+	for _, p := range fd.Type.Params.List {
+		for _, n := range p.Names {
+			if n.Name == id.Name {
+				t := typeString(p.Type)
+				return t == "*ImportHandler" || strings.Contains(t, "BitSet") || t == "*ast.IndexExpr"
+			}
+		}
+	}
+	return false
 }
